@@ -45,6 +45,14 @@ def _tables(case, units, classes):
         else:
             conv = TableConverter(rows)
         classes[t['cls']].register_converter(conv)
+    mc = case.get('money_conv')
+    if mc:
+        # a MoneyConverter with constant rates from its base currency; cases use it
+        # only in the direction base -> term (the stored rate itself)
+        from quantity.money import Money, MoneyConverter
+        conv = MoneyConverter(units[mc['base']])
+        conv.update(None, [(units[t], W.number(('dec', r)), 1) for t, r in mc['rates']])
+        Money.register_converter(conv)
 
 
 def impl_run(case):
@@ -159,6 +167,11 @@ def coq_convs(case, views):
         txt = clist([f"(({cn(views.uid(a))}, {cn(views.uid(b))}), ({cq(f)}, {cq(o)}))"
                      for (a, b), (f, o) in rows.items()])
         per_cls.setdefault(views.cls_ids[t['cls']], []).insert(0, txt)
+    mc = case.get('money_conv')
+    if mc:
+        txt = clist([f"(({cn(views.uid(mc['base']))}, {cn(views.uid(t))}), ({cq(F(r))}, {cq(F(0))}))"
+                     for t, r in mc['rates']])
+        per_cls.setdefault(views.cls_ids['Money'], []).insert(0, txt)
     return clist([f"({cn(c)}, {clist(ts)})" for c, ts in per_cls.items()])
 
 
